@@ -105,7 +105,7 @@ AResolveTemp(q) ==
                                           ELSE Drop(@, h[1]) \o RemoveFirstItem(Keep(@, h[1]), h[4])]
          ELSE UNCHANGED md
 ANext == \/ \E r \in Regions : \/ \E w \in 1..7 : ASeedReq(r, w)
-                               \/ \E i \in 1..9 : ASeedResp(r, i)
+                               \/ \E i \in 1..10 : ASeedResp(r, i)
                                \/ \E u \in TempUrls(r) : \E n \in TempNames : ARegisterTemp(r, u, n)
                                \/ \E n \in PONameSet : ARegisterProxy(r, n)
          \/ \E q \in TempReqs : AResolveTemp(q)
